@@ -15,12 +15,14 @@ CLAIMS = {
  "C03": ("terminator-exists theorems for every exit of strcpy/strncpy/strcat/strncat/wcscpy with arbitrary prior dest; partial + kernel-checked witness where the code violates it (dest == src)", "Lean 4 exit analysis + correspondence with dirty dest"),
  "C04": ("cleared-on-failure theorems (dest[0]=0, all zero with null-slack, outside untouched) for the copy family; both slack configurations in the correspondence", "Lean 4 exit analysis + frame lemma + correspondence"),
  "C05": ("handler-exactly-once-with-the-returned-code theorems for all arguments of the copy family, early rejection with nothing mapped; counting handlers in the harness, violation-class product in the generator", "Lean 4 theorems over handler events + correspondence with counting handlers"),
- "C06": ("refinement theorems: EOK iff the complete result fits, and then dest is exactly the standard function's result (strcpy, strncpy, strcat); reference semantics evaluated on the implementation for copy and mem families", "Lean 4 refinement to list specs + differential reference"),
- "C07": ("overlap-detected and disjoint-never-rejected theorems for all placements of strcpy/wcscpy/strcat, witness for the slack-fill finding; every offset of src relative to dest swept in one arena; memmove family by correspondence only so far", "Lean 4 bumper invariant + placement sweep"),
+ "C06": ("refinement theorems: EOK iff the complete result fits, and then dest is exactly the standard function's result (strcpy, strncpy, strcat; memcpy_s, memmove_s, memcpy16/32_s, wmemcpy_s copy exactly); reference semantics evaluated on the implementation for copy and mem families", "Lean 4 refinement to list specs + differential reference"),
+ "C07": ("overlap-detected and disjoint-never-rejected theorems for all placements of strcpy/wcscpy/strcat, witness for the slack-fill finding; mem_prim_move and the 8/16/32-bit variants proved equal to memmove for every length, overlap, direction and alignment, memmove_s/memmove16_s/memmove32_s/wmemmove_s exact, memcpy_s rejects every true overlap; every offset of src relative to dest swept in one arena", "Lean 4 bumper invariant + placement sweep"),
  "C08": ("zero-tail theorems through both slack strategies (memset > 0x20, byte loop) for strcpy/strncpy/strcat/wcscpy; result length x dmax sweep across the 0x20 switch with dirty buffers", "Lean 4 zero-fill lemmas + dirty-buffer sweep"),
  "C09": ("the engine's directive parser proved to reject every format in which libc's printf grammar finds an n conversion (all strings, by induction); pre-scan soundness for the 21 libc-delegating entry points proved under two syntactic hypotheses, with kernel-decided witnesses for the general failure; all 28 entry points executed with sentinel-address varargs against the models and plain glibc", "Lean 4 induction over format strings + sentinel-vararg correspondence"),
  "C10": ("answers of strnlen/wcsnlen, memchr/memrchr, memcmp/wmemcmp, strspn/strcspn proved equal to the standard function's answer computed from the memory contents restricted to dmax, for all contents, lengths and bounds; strcmp_s characterised exactly (partial theorem + kernel-checked witnesses for the signed-char and read-at-dmax defects); every query model proved store-free, hence operands never modified on any input; all 60 query entry points run against reference answers over the small-alphabet scope", "Lean 4 refinement to pure specs + NoStore meta-theorem + differential reference"),
  "C14": ("one tokenizer call characterised completely as a function of the memory contents (token start/end, returned pointer, *ptr, *dmaxp, the single overwritten delimiter) for all strings, lengths and delimiter sets of 1..16 characters; corollaries: *ptr + *dmaxp is conserved (never beyond the original dmax), token shape, only a delimiter cell is overwritten; whole call sequences (any number of calls threading *ptr/*dmaxp) proved to return exactly the maximal delimiter-free runs of the ORIGINAL string in order, each once, then NULL forever (loop invariant + soundness/completeness of the run list); call sequences run against a reference tokenizer", "Lean 4 loop lemmas + invariants over call sequences + sequence correspondence"),
+ "C18": ("PARTIAL. Proved (all n, alignments, fill values, dmax, object sizes): after a successful memset_s, memset16_s, memset32_s, memzero_s, memzero16_s, memzero32_s, strzero_s exactly the addressed cells hold the fill value and nothing else changed (n < 2^32 when the object size is known: witness + known finding), and what a failed call leaves; the word-unrolled set primitives proved by induction on the block count; models tied to the tree by differential execution (all n <= 160 x alignment 0..15 x values, guard pages). NOT proved — no model tied to this code can express it: that compilers keep the stores when the buffer is dead (O0..O3, LTO). That assumption is sampled by a validator: clients with dead stack / non-escaping stack / heap / static buffers through the public macros, gcc 12 -O0..-O3/-Os, -flto, clang 14, shared and static links, bytes inspected out-of-band; it found two genuine defects (word stores of mem_prim_set and strzero_s's fills dropped under LTO), repaired by fix commits 7b875c5 and 42c61dd", "Lean 4 proofs (prologue/body/tail lemmas) + guard-page correspondence + out-of-band dead-buffer validator on real builds"),
+ "C20": ("theorems over an allocation-skeleton machine (alloc/realloc/free/deref under an ARBITRARY failure oracle) for all 16 allocating entry points: no use of a failed allocation, live blocks at return = at entry on every path, a failed request implies failure indication + handler + cleared dest — full for the tree as it stands after fix commits 96f0289, fb5a86e, 4fa8430 (17 defects found and repaired: unchecked mallocs in the printf engine, the wide printf probe and wcsnorm_s, leaks on the ESNOSPC and %ls error exits), with partial + witness theorems documenting the unrepaired code; tied to the implementation by failing every allocation request (singly, in pairs, all) of structured inputs reaching each of the 18 allocation calls found by a per-run source inventory and comparing crash / alloc-free sequence / outstanding blocks / failure indication / handler / dest with the model", "Lean 4 induction + WP calculus over an allocation machine + link-time malloc wrapping fault injection in forked children + source inventory"),
  "C12": ("schedule-independent theorem: two calls with disjoint footprints under ANY interleaving equal the calls run alone, footprints derived from the no-stray theorems (strcpy_s instance), witness for the shared-scratch defect class; the library's writable segments are snapshotted around every representative call and must be bit-identical, N-thread stress as the failing-schedule search", "Lean 4 interleaving theorem + static-segment snapshots + thread stress"),
  "C19": ("results of timingsafe_bcmp/memcmp proved against the unsigned first-difference spec, and the source-level trace (addresses + branch decisions) proved independent of the contents for every n; valgrind-lackey traces of the compiled function compared across contents as an assumption validator", "Lean 4 induction (Int32 arithmetic, trace observer) + lackey trace comparison"),
  "C13": ("the registration state machine proved for every history (dispatch rule, returns-previous, NULL selects default, kind independence, thread isolation, fresh threads); histories executed with real pthreads", "Lean 4 induction over registration histories + pthread correspondence"),
